@@ -15,6 +15,7 @@ import (
 	"strings"
 
 	"github.com/theQRL/go-qrllib/dilithium"
+	"verifmc/chalcorpus"
 	"verifmc/dilscope"
 	"verifmc/drv"
 	"verifmc/refdil"
@@ -430,6 +431,33 @@ func main() {
 			c.Outcome("ok")
 			if lo == 0 {
 				c.Sample(map[string]any{"buffer": "f0", "capacity": 2, "expected": "[2]"})
+			}
+		}})
+	chal := chalcorpus.Load()
+	ck.Domains = append(ck.Domains, &drv.Domain{Name: "challenge-corpus", Size: int64(len(chal)) + 1, Chunk: 8,
+		Desc: "polyChallenge == SampleInBall on the committed corpus of challenge seeds (out of 2^30 enumerated seeds, those whose sampler rejects the most positions and so reads furthest into the XOF output)",
+		Run: func(c *drv.Ctx, lo, hi int64) {
+			for i := lo; i < hi; i++ {
+				c.At(i)
+				if i == int64(len(chal)) {
+					if len(chal) == 0 {
+						c.Cap("challenge corpus missing")
+					}
+					c.Outcome("sentinel")
+					continue
+				}
+				e := chal[i]
+				var ch [refdil.N]int32
+				var err error
+				out := drv.Call(func() { ch, err = dilithium.VerifPolyChallenge(e.Bytes) })
+				ref := refdil.SampleInBall(e.Bytes)
+				c.Eval(1)
+				c.Nontrivial(1)
+				c.Max("xof_bytes_read", int64(e.Read))
+				if out != "ok" || err != nil || !eqRef(ch, &ref) {
+					c.Fail(i, "polychallenge-on-corpus-seed", map[string]any{"seed": e.Seed, "xof_bytes_read": e.Read, "observed": fmt.Sprint(out, " ", err)})
+				}
+				c.Outcome("ok")
 			}
 		}})
 	ck.Domains = append(ck.Domains, &drv.Domain{Name: "xof-samplers", Size: 2000, Chunk: 25, Desc: "polyChallenge, polyUniform, polyUniformEta (second-block path counted) on 2000 (seed, nonce) pairs vs SampleInBall / ExpandA / ExpandS / ExpandMask",
